@@ -61,6 +61,19 @@ pub fn plan07(tier: Tier) -> Plan {
         }
     }
     ps.extend(pgrid());
+    // p near (but more than a rounding away from) every k/n boundary
+    for n in 1..=4u32 {
+        for k in 1..=n {
+            let b = k as f64 / n as f64;
+            for d in [1e-15, 1e-13, 1e-11, 1e-9, 1e-6, 1e-3] {
+                for c in [b - d, b + d] {
+                    if (0. ..=1.).contains(&c) {
+                        ps.push(c);
+                    }
+                }
+            }
+        }
+    }
     if tier == Tier::Thorough {
         for k in 1..40 {
             ps.push(k as f64 / 40.0);
@@ -207,6 +220,7 @@ impl QLasso {
     }
 }
 /// the cheap part of the oracle (no serde): estimate vs reference / range
+#[allow(dead_code)]
 fn spec_quick(spec: &super::quantile::QSpec, t: &super::quantile::QState) -> Vec<Violation> {
     let q = match &t.q {
         Ok(q) => q,
